@@ -56,6 +56,9 @@ for d in sorted(glob.glob(os.path.join(ROOT, "seeded", "C*"))):
     if m.get("neutralised_by_fix"):
         out.append(f"| {os.path.basename(d)} | {cut(m.get('breaks'), 160)} | {cut(m.get('needs_to_manifest'), 120)} | {db.get('exit_code', '?')} (expected 0) | neutralised by fix {m['neutralised_by_fix'][:7]}: no longer breaks the property | - | - |")
         continue
+    oc = [f"{k}: exit {v['exit_code']}" for k, v in (db.get("other_checks") or {}).items() if v.get("exit_code") == 1]
+    if oc and db.get("exit_code") == 0:
+        ob = "reported by another property's check - " + "; ".join(oc) + " " + cut(next(iter(db["other_checks"].values())).get("first", ""), 120)
     out.append(f"| {os.path.basename(d)} | {cut(m.get('breaks'), 160)} | {cut(m.get('needs_to_manifest'), 120)} | {db.get('exit_code', db.get('status', '?'))} | {ob or '-'} | {bn or '-'} | {db.get('with_replayed_input', '-')} of {db.get('violations', '-')} |")
 out.append("")
 out.append("**Behaviour-preserving changes (written by independent sub-agents from the property text only; `refactors/<id>/`; expected: exit 0, exit 2 tolerated, exit 1 = false alarm).**")
